@@ -298,6 +298,27 @@ func generate(g *core.Gen) {
 		g.Case("orphan-overflow", true, mkLine(tree, ops))
 	}
 
+	// ---- headers-first: every header in order (as netsync does), then the blocks in random order
+	for i, n := 0, g.N(30, 250); i < n; i++ {
+		size := 4 + r.Intn(g.N(30, 120))
+		tree := relabel(r, randTree(r, size, r.Intn(3), int(r.Pick(0, 80, 200))))
+		var ops []op
+		for _, id := range topo(tree) {
+			ops = append(ops, op{'h', id})
+		}
+		ids := idsOf(tree)
+		shuffle(r, ids)
+		ops = append(ops, blockOps(ids)...)
+		if r.Bool() {
+			for _, id := range topo(tree) {
+				if r.Chance(1, 4) {
+					ops = append(ops, op{'h', id})
+				}
+			}
+		}
+		g.Case("headers-first", nontrivial(tree, ops), mkLine(tree, ops))
+	}
+
 	genVariedWork(g)
 	genInvRec(g)
 
